@@ -12,7 +12,7 @@ import negcommon as nc
 INVS = ["C04_FaultImpliesError", "C04_NoSwallow", "C04_ErrNotReady", "C04_OkMeansReady", "C04_NoStall"]
 MC = ("CONSTANTS\n  MaxSteps = %d\n  Dev = %s\nSPECIFICATION Spec\n" + "".join("INVARIANT %s\n" % i for i in INVS)
       + "PROPERTY C04_NoStepSucceedsAfterFault\nCHECK_DEADLOCK FALSE\n")
-DEVS = ["SwallowStepError", "IgnoreFault", "LoseCancellation", "ReadyOnError", "StallAfterCancel", "StepSucceedsAfterFault"]
+DEVS = ["SwallowStepError", "IgnoreFault", "LoseCancellation", "ReadyOnError", "StallAfterCancel", "StepSucceedsAfterFault", "DeadlineCtxLosesCancel"]
 
 
 def validate(ctx, trace):
@@ -76,7 +76,7 @@ def run(ctx):
     ctx.write_evidence("fault_enumeration", {
         "evaluations": summ["evaluations"] + summn["evaluations"],
         "distinct_nontrivial": summ["distinct"],
-        "rule": "for each handshake (sasl+bind on a secure stream, STARTTLS+SASL+bind with real TLS, WebSocket framing, a failing voluntary feature, XEP-0114 component) and each side under test: the peer's byte stream ends after every prefix length (quick: first/last 48 bytes and every 5th in between; thorough: every byte), the k-th read fails, the k-th write fails, the context is cancelled at the k-th transport operation with the peer playing on and with the peer silent, for every k; a class is (handshake, side, fault kind)",
+        "rule": "for each handshake (sasl+bind on a secure stream, STARTTLS+SASL+bind with real TLS, WebSocket framing, a failing voluntary feature, XEP-0114 component) and each side under test: the peer's byte stream ends after every prefix length (quick: first/last 48 bytes and every 5th in between; thorough: every byte), the k-th read fails, the k-th write fails, the context is cancelled at the k-th transport operation with the peer playing on and with the peer silent (also with a context that carries a far-off deadline of its own), for every k; a class is (handshake, side, fault kind)",
         "samples": summ["samples"][:3],
         "states": mc.distinct + mcn.distinct, "transitions": mc.generated + mcn.generated,
         "traces_validated_against_impl": summ["traces"] + summn["traces"],
